@@ -602,6 +602,30 @@ def run_api_case(L: ApiLayout, case: dict) -> list[dict]:
                 # arguments is unexpected
                 exe_dir = os.path.isdir(posixpath.normpath(os.path.join(wd_abs, exe)))
                 add(w, "to", "wd", True, [], error=repr(exc), unexpected=not (dirlike or "/" not in exe or exe_dir))
+        # call(..., args_file=...): the file the caller writes is the file the new step is told to read
+        if w == "call" and last("define_step") is not None and not wd.startswith("/"):
+            client.calls.clear()
+            args_rel = "call_args.json"
+            exc = None
+            try:
+                api.call(exe, "fn", workdir=wd, args_file=args_rel, x=1)
+            except Exception as e:  # noqa: BLE001
+                exc = e
+            amend_call, def_call = last("amend_step"), last("define_step")
+            if amend_call is not None and def_call is not None:
+                add("call.args_file.written", "to", "wd", True, tr([args_rel]), list(amend_call[1][3]))
+                declared = [p_ for p_ in def_call[1][2] if str(p_).endswith(args_rel)]
+                add("call.args_file.declared", "to", "wd", True, tr([args_rel]), declared)
+                written_at = posixpath.normpath(os.path.join(wd_abs, args_rel))
+                if not os.path.exists(written_at):
+                    add("call.args_file", "to", "wd", True, [], error=f"no file at {written_at}", unexpected=True)
+                else:
+                    os.remove(written_at)
+            elif exc is not None and not (dirlike or "/" not in exe):
+                add("call.args_file", "to", "wd", True, [], error=repr(exc), unexpected=False)
+            for stray in (os.path.join(cwd_abs, args_rel),):
+                if os.path.exists(stray):
+                    os.remove(stray)
         # amend()
         client.calls.clear()
         apaths = [L.sub(p) for p in case["apaths"]]
